@@ -223,6 +223,24 @@ func (w *World) sweepLint(li *LintInfo, prop string) (res sweepResult) {
 			}
 		}
 	}
+	// Execute alone under its own nopanic contract (its body is verified as a unit of its own, with
+	// the loop invariants the sweep does not have): after the inlined CheckApplies only the
+	// precondition of Execute is left to establish
+	if prop == "C02" {
+		if cex := w.funcContract(li.Execute); cex != nil && cex.HasProp("C02") && cex.Flags["nopanic"] {
+			cex.Used = true
+			ex.applyContractTop(li.Execute, cex, args, st, li.Site, false)
+			u.note("Execute applied by its contract (body verified as a unit of its own); CheckApplies executed symbolically")
+			res.obls = append(res.obls, u.obls...)
+			cnt := map[string]int{}
+			for _, o := range res.obls {
+				cnt[o.Kind]++
+				o.Name = fmt.Sprintf("C02/lint:%s/safety#%s.%d", li.Name, o.Kind, cnt[o.Kind])
+				o.Func = "lint:" + li.Name
+			}
+			return
+		}
+	}
 	ex.run(st.heap, st.cur)
 	if len(ex.retConds) == 0 {
 		res.err = "no normal return path"
